@@ -137,6 +137,14 @@ Classify(body) ==
 ---------------------------------------------------------------------------
 (* Part 2: the stream connection machine                                   *)
 
+\* The documented defaults (doc comments of connection.rs / stream.rs /
+\* dgram.rs), which is what a server built without explicit configuration
+\* has to behave like.  Times in milliseconds.
+Doc == [idle_timeout |-> 30000, response_write_timeout |-> 30000,
+        max_queued_responses |-> 10, max_concurrent_connections |-> 100,
+        accept_connections_at_max |-> TRUE,
+        udp_max_response_size |-> 1232, udp_min |-> 512, udp_max |-> 4096,
+        dgram_write_timeout |-> 5000]
 IdleDefault == 2        \* configured idle timeout = write timeout = 2 half ticks
 IdleLong == 4           \* what service kind "rlong" asks for
 IdleShort == 1          \* what service kind "rshort" asks for
@@ -149,6 +157,9 @@ IB  == [t |-> "resp", fb |-> "begin"]      \* ServiceFeedback::BeginTransaction
 IE  == [t |-> "resp", fb |-> "end"]        \* ServiceFeedback::EndTransaction
 IRL == [t |-> "resp", fb |-> "long"]       \* ServiceFeedback::Reconfigure { idle_timeout: longer }
 IRS == [t |-> "resp", fb |-> "short"]      \* ServiceFeedback::Reconfigure { idle_timeout: shorter }
+FBb == [t |-> "fb", fb |-> "begin"]        \* feedback-only CallResult (no response), as the
+FBe == [t |-> "fb", fb |-> "end"]          \* XFR middleware emits around a transfer
+FBl == [t |-> "fb", fb |-> "long"]         \* feedback-only Reconfigure
 IBig == [t |-> "big", fb |-> "none"]       \* (datagram machine) an answer of BigLen octets
 IFl == [t |-> "fail", fb |-> "none"]       \* Err(ServiceError)
 IFe == [t |-> "formerr", fb |-> "none"]    \* the FORMERR task for QR=1
@@ -163,6 +174,10 @@ Script(svc) ==
     [] svc = "rlong"   -> <<IRL>>
     [] svc = "rshort"  -> <<IRS>>
     [] svc = "big"     -> <<IBig>>
+    [] svc = "mid"     -> <<IBig>>
+    [] svc = "huge"    -> <<IBig>>
+    [] svc = "xfr"     -> <<FBb, IR, IR, IR, IR, FBe>>
+    [] svc = "fblong"  -> <<FBl, IR>>
     [] OTHER           -> <<>>
 
 Task(items, permits, disp) ==
@@ -215,6 +230,11 @@ TaskStep(s, r) ==
               LET resp == Resp(r, "servfail", 0)
               IN TryEnq([s EXCEPT !.tasks[r] = [t1 EXCEPT !.status = "abort"],
                                   !.yielded = Append(@, resp)], r, resp)
+         [] it.t = "fb" ->       \* feedback only: process_feedback, nothing to enqueue
+              [s EXCEPT !.tasks[r] = [t1 EXCEPT !.status = IF it.fb = "begin" THEN "txn"
+                                                           ELSE IF it.fb = "end" THEN "normal"
+                                                           ELSE @],
+                        !.itmo = IF it.fb = "long" THEN IdleLong ELSE @]
          [] it.t = "formerr" ->
               LET resp == Resp(r, "formerr", 0)
               IN TryEnq([s EXCEPT !.tasks[r] = t1, !.yielded = Append(@, resp)], r, resp)
@@ -407,12 +427,15 @@ ClosedIsFinal(s, t) == s.st = "closed" => (t.st = "closed" /\ t.wrote = s.wrote)
 \* hints: the limit each request was received under (UdpTransportContext is
 \* built when the datagram is received); sendfail: transient errors armed
 \* on the socket's send side; alive: the receive loop is running
-InitDg == [tasks |-> NoTasks, sent |-> <<>>, yielded |-> <<>>, limit |-> 1232,
-           hints |-> [x \in {} |-> 0], bigs |-> {}, sendfail |-> 0, unsent |-> {}, alive |-> TRUE]
+InitDg == [tasks |-> NoTasks, sent |-> <<>>, yielded |-> <<>>, limit |-> Doc.udp_max_response_size,
+           hints |-> [x \in {} |-> 0], bigs |-> [x \in {} |-> ""], sendfail |-> 0, unsent |-> {}, alive |-> TRUE]
 
-BigLen == 1840
-BigReq(r) == [udp |-> TRUE, edns |-> TRUE, csize |-> 4096, qlen |-> 9 + r, opts |-> "none"]
-BigSvc(r) == [len |-> BigLen, optlen |-> 0, body |-> BigLen - 12 - (9 + r), tc |-> FALSE]
+\* answers of prescribed size: "big" 1840 octets to a client advertising
+\* 4096, "mid" 300 to 4096, "huge" 5000 to 65535
+BLen(svc) == IF svc = "mid" THEN 300 ELSE IF svc = "huge" THEN 5000 ELSE 1840
+BCsz(svc) == IF svc = "huge" THEN 65535 ELSE 4096
+BigReqS(r, svc) == [udp |-> TRUE, edns |-> TRUE, csize |-> BCsz(svc), qlen |-> 9 + r, opts |-> "none"]
+BigSvcS(r, svc) == [len |-> BLen(svc), optlen |-> 0, body |-> BLen(svc) - 12 - (9 + r), tc |-> FALSE]
 
 DgRecv(d, what, r, svc) ==        \* what: query | short (QR clear), reply | shortqr
   IF what \in {"reply", "shortqr"}
@@ -424,11 +447,12 @@ DgRecv(d, what, r, svc) ==        \* what: query | short (QR clear), reply | sho
                     !.tasks = @ @@ (r :> Task(<<>>, 0, TRUE))]
   ELSE [d EXCEPT !.tasks = @ @@ (r :> Task(Script(svc), IF svc = "echo" THEN 1 ELSE 0, TRUE)),
                  !.hints = @ @@ (r :> d.limit),
-                 !.bigs = IF svc = "big" THEN @ \cup {r} ELSE @]
+                 !.bigs = IF svc \in {"big", "mid", "huge"} THEN @ @@ (r :> svc) ELSE @]
 
 \* run_until_error: a command, spurious readiness (WouldBlock) and a failed
 \* send leave the loop running
-DgReconf(d, limit) == [d EXCEPT !.limit = limit]
+\* Config::set_max_response_size clamps into the documented range
+DgReconf(d, limit) == [d EXCEPT !.limit = Max(Doc.udp_min, Min(Doc.udp_max, limit))]
 DgSpurious(d) == d
 DgSendErr(d) == [d EXCEPT !.sendfail = @ + 1]
 
@@ -441,7 +465,7 @@ DgYield(d, r) ==
       it == Head(t.items)
       t1 == [t EXCEPT !.items = Tail(@), !.permits = @ - 1]
       \* the limit in force when the request was received decides
-      cut == it.t = "big" /\ Final({}, BigReq(r), d.hints[r], BigSvc(r)).tc
+      cut == it.t = "big" /\ Final({}, BigReqS(r, d.bigs[r]), d.hints[r], BigSvcS(r, d.bigs[r])).tc
       resp == IF it.t = "fail" THEN Resp(r, "servfail", 0)
               ELSE IF cut THEN Resp(r, "trunc", 0)
               ELSE Resp(r, "ans", t.n + 1)
@@ -469,8 +493,8 @@ DgLoopAlive(d) == d.alive
 DgSizeOK(d) ==
   \A i \in 1..Len(d.sent) :
      LET x == d.sent[i] IN
-     x.r \in d.bigs =>
-       LET f == Final({}, BigReq(x.r), d.hints[x.r], BigSvc(x.r))
-       IN /\ f.len <= Allowed(BigReq(x.r), d.hints[x.r])
+     x.r \in DOMAIN d.bigs =>
+       LET f == Final({}, BigReqS(x.r, d.bigs[x.r]), d.hints[x.r], BigSvcS(x.r, d.bigs[x.r]))
+       IN /\ f.len <= Allowed(BigReqS(x.r, d.bigs[x.r]), d.hints[x.r])
           /\ (x.kind = "trunc") = f.tc
 =============================================================================
